@@ -17,7 +17,7 @@ ID = "C10"
 TIERS = {"quick": {"n": 2600, "chunk": 40}, "thorough": {"n": 60000, "chunk": 150, "wall_cap": 3300}}
 RULE = (
     "each scenario is a seeded history of 2-7 runs (1 in 10: 8-20; 1 in 25: a burst of 12-17 runs of one group inside one second followed by a later run) drawn from {g1,g2} x {new,reused CsvPaths} x 7 run forms, the simulated clock set before each run by a profile "
-    "(same second, +1s, +minutes, to 12:59:5x/13:00:0x, to 23:59:5x/00:00:0x, +12h exactly, backward step), 0 or 1 ms clock advance per read, listdir order permuted; invariants are checked after every run. "
+    "(same second, +1s, +minutes, to 12:59:5x/13:00:0x, to 23:59:5x/00:00:0x, +12h exactly, backward step), 0, 1 ms or 400 ms clock advance per clock read (a run can straddle second boundaries), listdir order permuted; invariants are checked after every run. "
     "Non-trivial = at least two runs of one group, or a reused instance; distinct = distinct sequences of step classes (group, new/reused, serial/by-line, collecting?, clock profile)."
 )
 ASSUMPTIONS = [
@@ -112,7 +112,7 @@ def generate(rng, i, tier):
     return {
         "seed": rng.getrandbits(32),
         "listdir_salt": rng.choice([None, rng.getrandbits(16), rng.getrandbits(16)]),
-        "step_us": rng.choice([0, 0, 0, 1000]),
+        "step_us": rng.choice([0, 0, 0, 1000, 400000]),
         "steps": steps,
     }
 
@@ -165,6 +165,9 @@ def execute(sc):
         pairs = []
         for idx, st in enumerate(steps):
             at = seams.parse_iso(st["at"])
+            if at < seams.SimClock.peek() and st["profile"] != "back":
+                # the clock advanced while the previous run was executing: only a 'back' step may move it backwards
+                at = seams.SimClock.peek()
             if at < seams.SimClock.peek():
                 epoch += 1
                 out.fault("clock_back")
